@@ -2687,6 +2687,23 @@ def member_index(v, h):
     return None
 
 
+def combine_rcu_closure_ok(v, h, rc, idx):
+    """The rcu closure of member idx is `copy the tuple it is handed; copy.idx = Some(datum.clone()); copy`."""
+    rets = closure_returns(v, rc.closure) if rc.closure else []
+    if len(rets) != 1:
+        return False
+    stores = [e for e in v.all_effects(rc.closure) if e.kind == "pstore"]
+    if len(stores) != 1:
+        return False
+    stp = stores[0]
+    base = stp.place[1] if stp.place[0] == "field" else None
+    val = stp.value
+    cur = ("param", rc.closure, 2)
+    return bool(stp.place[0] == "field" and stp.place[2] == idx and base is not None and strip_clone(base) == cur and base != cur
+                and val[0] == "agg" and val[2] == "Option::Some" and strip_clone(val[3][0]) == incoming_payload(h, "Data")
+                and val[3][0] != incoming_payload(h, "Data") and rets[0][1] == base)
+
+
 def combine_lemmas(ctx, v):
     ups = v.by_role("UP")
     d = v.by_role("DOWN")[0]
@@ -2729,18 +2746,7 @@ def combine_lemmas(ctx, v):
             ri, rc = rcus[0]
             vals_k = cell_key(rc.cell)
             # closure lemma: copy the current tuple, set field idx to Some(datum.clone()), return the copy
-            rets = closure_returns(v, rc.closure) if rc.closure else []
-            cl_ok = False
-            if len(rets) == 1:
-                stores = [e for e in v.all_effects(rc.closure) if e.kind == "pstore"]
-                if len(stores) == 1:
-                    stp = stores[0]
-                    base = stp.place[1] if stp.place[0] == "field" else None
-                    val = stp.value
-                    cur = ("param", rc.closure, 2)
-                    cl_ok = (stp.place[0] == "field" and stp.place[2] == idx and base is not None and strip_clone(base) == cur and base != cur
-                             and val[0] == "agg" and val[2] == "Option::Some" and strip_clone(val[3][0]) == incoming_payload(h, "Data")
-                             and rets[0][1] == base)
+            cl_ok = combine_rcu_closure_ok(v, h, rc, idx)
             if not cl_ok:
                 probs.append("the rcu closure is not `copy tuple; tuple.%s = Some(datum.clone()); copy`" % idx)
             # first-value test on own slot, counter decremented at most once per member, after the publication (ORD-pub-signal)
@@ -3030,7 +3036,17 @@ def share_lemmas(ctx, v):
     ctx.ob("ORD-store-pub", v.key(h, "Handshake", "ORD-store-pub"), not probs, "source_talkback is stored before the first sink is greeted", v.loc(h))
     for var in ("Error", "Terminate"):
         _share_detach(ctx, v, d, var)
-    # position closure compares with this subscription's sink; removal closure splices i..i+1
+    _share_detach_closures(ctx, v)
+    lemma_rel_one(ctx, v, d, "Pull", "UPTB", "Pull", "none", what="pull-relayed", only_class=("UPTB", "SINK", "SINKLIST"))
+    # the two factory-scope cells are exactly the intended sharing
+    fact = sorted(c.name or "?" for k, c in v.op.cells.items() if c.scope == "FACTORY")
+    ctx.ob("SCP-sub", "share:SCP-sub:factory-cells", len(fact) == 2 and all(c.scope == "FACTORY" for c in v.op.cells.values()), "factory-scope cells: %s" % fact, v.loc(v.op.id))
+
+
+def _share_detach_closures(ctx, v):
+    """share DOWN.E|T: the position closure compares with this subscription's sink; the removal closure splices exactly i..i+1."""
+    r = v.root
+    d = v.by_role("DOWN")[0]
     probs = []
     for var in ("Error", "Terminate"):
         for p in v.arm(d, var, inline=0):
@@ -3050,10 +3066,6 @@ def share_lemmas(ctx, v):
                         if not okr:
                             probs.append("removal closure does not remove exactly position i from a copy of the list")
     ctx.ob("REL-detach", v.key(d, None, "REL-detach", "closures"), not probs, "detach looks the sink up by Arc::ptr_eq and removes exactly that position from a copy of the list" if not probs else "; ".join(sorted(set(probs))), v.loc(d))
-    lemma_rel_one(ctx, v, d, "Pull", "UPTB", "Pull", "none", what="pull-relayed", only_class=("UPTB", "SINK", "SINKLIST"))
-    # the two factory-scope cells are exactly the intended sharing
-    fact = sorted(c.name or "?" for k, c in v.op.cells.items() if c.scope == "FACTORY")
-    ctx.ob("SCP-sub", "share:SCP-sub:factory-cells", len(fact) == 2 and all(c.scope == "FACTORY" for c in v.op.cells.values()), "factory-scope cells: %s" % fact, v.loc(v.op.id))
 
 
 @prop("C12", "other",
@@ -3340,7 +3352,11 @@ def discharge_panic(v, b, var, p, i, e, hint, tbcells):
         rc = [j for j, x in ev_effects(p) if j < i and x.kind == "cell" and x.op == "rcu"]
         rm = [j for j, x in ev_effects(p) if j < i and x.kind == "atomic" and x.op == "fetch_sub"]
         ok = bool(dec) and bool(rc) and (not rm or rc[0] < rm[0])
-        return ("K-count", ok, "tuple unwrap guarded by n_data == 0, read after this member's publication, counter announced after publishing" if ok else "tuple unwrap not behind n_data == 0 / publication order")
+        rce = [x for j, x in ev_effects(p) if j < i and x.kind == "cell" and x.op == "rcu"]
+        clo = bool(rce) and combine_rcu_closure_ok(v, b, rce[0], member_index(v, b))
+        if ok and not clo:
+            return ("K-count", False, "the rcu closure does not publish Some(datum.clone()) into the member's own slot on every (re-)run: a slot counted as filled may be None")
+        return ("K-count", ok, "tuple unwrap guarded by n_data == 0, read after this member's publication (closure: slot := Some(d.clone())), counter announced after publishing" if ok else "tuple unwrap not behind n_data == 0 / publication order")
     if hint.startswith("assert:overflow"):
         subj = e.subject
         inner = subj[1] if subj[0] == "overflowed" else subj
@@ -4405,3 +4421,6 @@ _post_chain("C06", lambda ctx, models, tier: probe_lemmas(ctx, ["pipe", "pipe2",
 _post_chain("C08", lambda ctx, models, tier: probe_lemmas(ctx, ["merge"]))
 _post_chain("C09", lambda ctx, models, tier: probe_lemmas(ctx, ["concat"]))
 _post_chain("C10", lambda ctx, models, tier: probe_lemmas(ctx, ["combine"]))
+
+_wrap("C04", lambda ctx, v: _share_detach_closures(ctx, v) if v.family == "share" else None)
+_wrap("C03", lambda ctx, v: _share_detach_closures(ctx, v) if v.family == "share" else None)
